@@ -1804,6 +1804,9 @@ def m_try_from(I, st, info, args, depth):
         re.search(r"<impl core::convert::TryFrom<&(?:'\w+ )?\[u8\]> for &?(?:'\w+ )?\[u8; ([A-Z][A-Z0-9_]*)\]>::try_from$", nm)
     if mg:
         n = Aff.sym(mg.group(1))
+        fr_ = getattr(I, "_cur_frame", None)
+        if fr_ is not None and mg.group(1) in (fr_.consts or {}):
+            n = Aff(fr_.consts[mg.group(1)])       # the caller's const parameter has a value at this call
         s_ = seq_of(I, st, args[0])
         out = []
         for s2, t in fork_bool(I, st, I.compare(st, "Eq", s_.length, n)):
